@@ -24,9 +24,9 @@ func baseLock(name string) string { return strings.TrimSuffix(name, "(R)") }
 // locks that only serialise one GridFS stream / bucket handle; they are deliberately held
 // across engine calls (DESIGN 4.3)
 var streamLocalLocks = map[string]bool{
-	"lungo.Bucket.indexMutex":     true,
-	"lungo.UploadStream.mutex":    true,
-	"lungo.DownloadStream.mutex":  true,
+	"lungo.Bucket.indexMutex":    true,
+	"lungo.UploadStream.mutex":   true,
+	"lungo.DownloadStream.mutex": true,
 }
 
 func init() {
@@ -620,7 +620,9 @@ const (
 	tkO                 // owned through e.txn
 )
 
-func (t tokState) String() string { return [...]string{"Unknown", "NotHeld", "Held", "Owned(e.txn)"}[t] }
+func (t tokState) String() string {
+	return [...]string{"Unknown", "NotHeld", "Held", "Owned(e.txn)"}[t]
+}
 
 type tokPair struct {
 	s        tokState
